@@ -241,4 +241,36 @@ def CompressedSim (sd : ByteArray) : Prop :=
       st1.bits.length + st'.out.size < 2 ^ 24 →
       ∃ X e, Trace sd (fin (readPrefixCodes s1)) X e ∧ e ≠ .eof ∧ Agree (del ++ X) st'.out.toList
 
+/-- `CompressedSim` asked only at specification states that satisfy `G`. -/
+def CompressedSimOn (sd : ByteArray) (G : St → Prop) : Prop :=
+  ∀ (ws : Nat) (s1 : State) (st1 : St) (ds : Dists) (del : List UInt8) (mlen : Nat), G st1 →
+    Rel ws s1 st1 ds del → s1.blkLen = (mlen : Int) → 1 ≤ mlen → mlen ≤ 2 ^ 24 →
+    ((fin (readPrefixCodes s1)).err = none →
+      (fin (readPrefixCodes s1)).rd.bits.length ≤ s1.rd.bits.length) ∧
+    match specCompressed sd ws mlen ds st1 with
+    | (.ok ds', st') =>
+      ∃ X s', Run sd (fin (readPrefixCodes s1)) X s' ∧ Rel ws s' st' ds' (del ++ X) ∧
+        s'.step = .blockHeader ∧ s'.last = s1.last ∧ st'.bits.length ≤ st1.bits.length
+    | (.error _, st') =>
+      st1.bits.length + st'.out.size < 2 ^ 24 →
+      ∃ X e, Trace sd (fin (readPrefixCodes s1)) X e ∧ e ≠ .eof ∧ Agree (del ++ X) st'.out.toList
+
+theorem CompressedSim.on {sd : ByteArray} (h : CompressedSim sd) (G : St → Prop) : CompressedSimOn sd G :=
+  fun ws s1 st1 ds del mlen _ => h ws s1 st1 ds del mlen
+
+/-- where compressed meta-blocks may occur in the specification's run: `I` holds at the meta-block
+    boundaries, `G` where a compressed meta-block starts. -/
+structure Reach (sd : ByteArray) (ws : Nat) (I G : St → Prop) : Prop where
+  comp : ∀ st st1 last mlen, I st → specHdr st = (.ok (.data last mlen false), st1) → G st1
+  mdata : ∀ st st1 skip st', I st → specHdr st = (.ok (.metadata false skip), st1) →
+      (alignToByte >>= fun _ => skipBytes skip) st1 = (.ok (), st') → I st'
+  raw : ∀ st st1 mlen st', I st → specHdr st = (.ok (.data false mlen true), st1) →
+      (alignToByte >>= fun _ => copyBytes mlen) st1 = (.ok (), st') → I st'
+  next : ∀ st st1 mlen ds ds' st', I st → specHdr st = (.ok (.data false mlen false), st1) →
+      specCompressed sd ws mlen ds st1 = (.ok ds', st') → I st'
+
+theorem Reach.trivial (sd : ByteArray) (ws : Nat) : Reach sd ws (fun _ => True) (fun _ => True) :=
+  ⟨fun _ _ _ _ _ _ => True.intro, fun _ _ _ _ _ _ _ => True.intro, fun _ _ _ _ _ _ _ => True.intro,
+   fun _ _ _ _ _ _ _ _ _ => True.intro⟩
+
 end Compress.Proofs.BrImpl
